@@ -185,6 +185,10 @@ func ObserveString(label string, s string) { ObserveBytes(label, []byte(s)) }
 func Cover(label string)                   { cur.res.Covers = append(cur.res.Covers, label) }
 
 func LoopBound(n int)     {}
+
+// StepLimit raises the engine's per-path instruction budget for harnesses
+// with long concrete histories (the budget stays an unwinding assertion).
+func StepLimit(n int64) {}
 func AllocBudget(n int64) {}
 func MapOrder(fork bool)  {}
 
